@@ -1,6 +1,6 @@
 (** Single entry point of the extracted model: name of the case kind -> function. *)
 From Coq Require Import List NArith ZArith String.
-From Tongo Require Import Lib.Bits Lib.Sx Harness.H06 Harness.H07.
+From Tongo Require Import Lib.Bits Lib.Sx Harness.H06 Harness.H07 Harness.H01.
 Import ListNotations.
 Local Open Scope string_scope.
 
@@ -12,4 +12,5 @@ Definition run (name : string) (a : sx) : sx :=
   else if is "c06.minbits" then H06.run_minbits a
   else if is "c07.parse" then H07.run_parse a
   else if is "c02.hashes" then H07.run_hashes a
+  else if is "c01.ser" then H01.run_ser a
   else sx_err "unknown case kind".
